@@ -19,6 +19,7 @@ TREES: dict[str, list[str]] = {
     "T6a": ["P", "P.A", "P.A.X", "P.B", "P.B.Y", "P.C"],
     "T6b": ["P", "P.A", "P.A.X", "P.A.Z", "P.B", "P.C"],
     "T6c": ["P", "P.A", "P.A.X", "P.B", "Q", "Q.L"],
+    "T4n": ["P", "P.A", "P.A.X", "P.B"],  # smallest tree with a module, its sub module and an unrelated sibling
     "T4r": ["P", "P.A", "P.B", "Q"],  # two roots
     "T5f": ["L", "P", "P.A", "P.B", "Q"],  # three roots, one sorting before and one after P's children
     "F4": ["A", "B", "C", "D"],  # four roots, no hierarchy: 2 subjects x 2 objects all unrelated
